@@ -797,6 +797,27 @@ void body(vf::Ctx & c, int64_t nLo, int64_t nHi, bool grow)
 {
   Cloud cl = genCloud(c, nLo, nHi, grow);
   Rot R = genRotation(c, cl.dim);
+  // merged scans / multi-echo returns: some points stored more than once (exact copies of another point; a neighbourhood
+  // that collapses to one location because of them is degenerate and handled as such). The k nearest neighbours of a point then
+  // contain its copies, and the definition does not change.
+  size_t rep = c.s.pick("repeated_points", {3, 1, 1});
+  if (rep != 0) {
+    vf::Rng rng(c.s.seed("repeat_seed"));
+    const int D = cl.dim;
+    std::vector<char> isCopy(cl.n, 0);
+    size_t made = 0;
+    for (size_t j = 1; j < cl.n; ++j) {
+      bool take = rep == 2 ? (j % 2 == 1) : rng.below(100) < 4;
+      if (!take) {continue;}
+      size_t src = rep == 2 ? j - 1 : static_cast<size_t>(rng.below(j));
+      if (isCopy[src]) {continue;}
+      for (int d = 0; d < D; ++d) {cl.x[j * D + d] = cl.x[src * D + d];}
+      cl.piece[j] = cl.piece[src];
+      isCopy[j] = 1;
+      made++;
+    }
+    c.labelIf(made > 0, rep == 2 ? "cloud-with-repeated-points(every point twice)" : "cloud-with-repeated-points(a few)");
+  }
   c.nontrivial(cl.kind != PLANAR || cl.noisy || cl.n > 2 * cl.k);
   c.commit();
 
